@@ -38,7 +38,7 @@ NP_COMPLEX = ["complex64", "complex128"]
 EXT_INTS = ["Int8", "Int16", "Int32", "Int64", "UInt8", "UInt16", "UInt32", "UInt64"]
 EXT_FLOATS = ["Float32", "Float64"]
 
-CATS = [["a", "b"], [1, 2, 3], ["1", "a", 2], ["x"], [1.5, 2.5], ["abc", "", "b"]]
+CATS = [["a", "b"], [1, 2, 3], ["1", "a", 2], ["x"], [1.5, 2.5], ["abc", "", "b"], [True, False]]
 TZS = [None, "UTC", "Europe/Berlin"]
 DECIMALS = [(4, 2), (6, 0), (10, 3), (28, 1)]
 
@@ -214,6 +214,15 @@ def own(spec, v):
         cats = spec["cats"]
         if null:
             return (NULL_OK, None) if nk in ("None", "nan", "NA") else (GREY, None)
+        if cats and all(isinstance(c, bool) for c in cats):
+            # boolean categories: True == 1 == 1.0 and False == 0 (python equality is what membership means)
+            if isinstance(v, bool):
+                return (EXACT, v) if v in cats else (FAIL, None)
+            if isinstance(v, (int, float)) and not (isinstance(v, float) and (math.isnan(v) or math.isinf(v))):
+                return (EXACT, bool(v)) if v in (0, 1) and bool(v) in cats else (FAIL, None) if v not in (0, 1) else (GREY, None)
+            if isinstance(v, str):
+                return (FAIL, None)
+            return (GREY, None)
         if isinstance(v, (str, int, float)) and not isinstance(v, bool):
             same_type = [c for c in cats if type(c) is type(v) and c == v]
             if same_type:
